@@ -53,7 +53,7 @@ def instances(tier, seed):
         (['p:a', 'p:b', 'u'], ['x']),
     ]
     n = 0
-    reps = 1 if tier == 'quick' else 3
+    reps = 1 if tier == 'quick' else 6
     for rep in range(reps):
         for method, intg in (('MS', 'rk'), ('SS', 'rk'), ('DC', None)):
             for args, ress in choices:
